@@ -56,6 +56,23 @@ for t in ['float', 'double']:
                      replayer=dict(kind='direct', harness='replay/direct/stats_builder_%s.c' % RN[t], sources=['src/core/arena.c'],
                                    vars=dict(v0bits='v0bits', v1bits='v1bits', v2bits='v2bits', n='n')),
                      wip=True, **BD))
+# INT96 (12-byte values, compare_int96 unwound) and FLBA(16) (compare_byte_array, memcmp exact for 16 bytes): same contract
+JOBS.append(dict(name='c16_builder_add_values_int96', entry='h_add_values', enforce='carquet_statistics_add_values',
+                 defines=['CQV_BT=3', 'CQV_STATS_EXACT=16', 'CQV_STATS_CMP=16'], min_loop_obligations=1,
+                 unwindset=['compare_int96.0:4', 'memcmp.0:17', 'memcpy.0:17'], timeout=300, wip=True, **BD))
+JOBS.append(dict(name='c16_builder_add_values_flba16', entry='h_add_values', enforce='carquet_statistics_add_values',
+                 defines=['CQV_BT=7', 'CQV_FLBA16=1', 'CQV_STATS_EXACT=16', 'CQV_STATS_CMP=16'], min_loop_obligations=1,
+                 unwindset=['compare_int96.0:4', 'memcmp.0:17', 'memcpy.0:17'], timeout=300, level='bounded',
+                 bound='FIXED_LEN_BYTE_ARRAY with type_length == 16', wip=True, **BD))
+JOBS.append(dict(name='c16_compare_int96', entry='h_compare_int96', loop_contracts=False, defines=['CQV_BT=3'],
+                 functions=['compare_int96'], wip=True, **BD))
+JOBS.append(dict(name='c16_stats_compare_int96', entry='h_stats_compare_int96', loop_contracts=False, defines=['CQV_BT=3', 'CQV_STATS_CMP=16'],
+                 functions=['carquet_statistics_compare', 'compare_int96'], wip=True, **BD))
+JOBS.append(dict(name='c16_range_overlaps_int96', entry='h_range_overlaps_int96', loop_contracts=False, defines=['CQV_BT=3', 'CQV_STATS_CMP=16'],
+                 functions=['carquet_statistics_range_overlaps', 'compare_byte_array'], wip=True, **BD))
+for hn in ['stats_compare', 'range_overlaps']:
+    JOBS.append(dict(name='c16_%s_bool' % hn, entry='h_' + hn, loop_contracts=False, defines=['CQV_BT=0', 'CQV_STATS_EXACT=8'],
+                     functions=['carquet_statistics_' + ('compare' if hn == 'stats_compare' else hn), 'compare_boolean', 'compare_byte_array'], wip=True, **BD))
 # FLBA wider than the min/max storage is rejected before anything is written (loop cut by its contract, not reached)
 JOBS.append(dict(name='c16_builder_flba_wide', entry='h_flba_wide', defines=['CQV_BT=7', 'CQV_STATS_EXACT=8'],
                  functions=['carquet_statistics_add_values', 'get_value_size'], wip=True, **AV, **BD))
@@ -123,8 +140,9 @@ FIXED = {
 }
 EST = {'c16_filter_row_groups': 60, 'c16_pw_update_statistics_i32': 30, 'c16_pw_update_statistics_i64': 40,
        'c16_pw_update_statistics_float': 60, 'c16_pw_update_statistics_double': 110, 'c16_builder_add_values_double': 40}
+NEW_WIP = set('c16_builder_add_values_int96 c16_builder_add_values_flba16 c16_compare_int96 c16_stats_compare_int96 c16_range_overlaps_int96 c16_stats_compare_bool c16_range_overlaps_bool'.split())
 for j in JOBS:
-    j['wip'] = False
+    j['wip'] = j['name'] in NEW_WIP
     if j['name'] in EST:
         j['est_s'] = EST[j['name']]
     if j['name'] == 'c16_pw_update_statistics_double':
